@@ -6,7 +6,7 @@ use std::ops::{Deref, DerefMut};
 use std::panic::{RefUnwindSafe, UnwindSafe};
 use std::sync::atomic::{AtomicUsize, Ordering};
 use std::sync::Arc;
-use std::sync::{LockResult, PoisonError, TryLockError, TryLockResult};
+use std::sync::{LockResult, TryLockError, TryLockResult};
 
 use crate::cancel::trigger_cancel_panic;
 use crate::park::ParkError;
@@ -113,13 +113,11 @@ impl<T: ?Sized> RwLock<T> {
                 .compare_exchange(0, 1, Ordering::SeqCst, Ordering::SeqCst)
             {
                 Ok(_) => Ok(()),
-                Err(_) => {
-                    if self.poison.get() {
-                        Err(TryLockError::Poisoned(PoisonError::new(())))
-                    } else {
-                        Err(TryLockError::WouldBlock)
-                    }
-                }
+                // somebody else got the lock. this is never a Poisoned error:
+                // the callers take everything but WouldBlock as "acquired",
+                // the poison is reported by the RwLock*Guard::new() after a
+                // real acquisition
+                Err(_) => Err(TryLockError::WouldBlock),
             }
         } else {
             Err(TryLockError::WouldBlock)
